@@ -27,4 +27,16 @@ CLAIMED = {
         'text': 'Lean theorems about create_backup\'s group choice and gc_groups for every listing and all limits >= 1: append_iff_room, new_group_named_today, reuse_is_last, group_bounded, gc_exact, gc_bound, gc_conservative, gc_keeps_newest, and at storage level failed_run_deletes_nothing / done_run_deletes_plan (a run that does not publish removes no root entry; a completed run deletes exactly gcPlan of what the storage lists after publication). Tied to storage/mod.rs, backup_group.rs, backuping/mod.rs by histories of real vsb backup runs under a faked clock on junk-seeded storages, compared step by step with backupRun of the compiled model, plus an independent oracle for the bounds.',
         'note': TRUST + 'chrono formatting of the faked clock (clock-derived names are model inputs); ASCII digits in names; kernel rename/mkdir semantics as observed; that the published group is the newest listed one under a monotone clock is checked by the oracle on every run, not yet proved at storage level.',
     },
+    'C02': {
+        'text': 'Lean theorems about the dedup model: resolvable_run (appending a run keeps a group resolvable whichever subset of earlier manifests was unreadable), new_group_fresh, resolvable_history (induction over arbitrary histories of runs with any rotation decision and deletions of arbitrary whole groups: every group of every reachable storage resolves all non-empty externs from itself), plus a proved counter-example showing why the fingerprint assumption is needed. Tied to backuping/backup.rs by random edit/backup histories on the real binary: every new manifest is compared with runBackup of the compiled model and resolved independently in the as-written group prefix.',
+        'note': TRUST + 'content change implies fingerprint change (the property\'s own assumption, hypothesis FpSound); sources static during a run; SHA-512 collision-free on the generated contents; rayon/HashMap ordering irrelevant (sets).',
+    },
+    'C09': {
+        'text': 'Lean theorems: unique_iff (a file is stored with data iff non-empty, not short-cut and its hash unknown to the group; bytes are read for storing exactly then), shortcut_no_read, empty_no_data, runFiles_uniques and unique_nodup (with readable metadata the unique hashes of a group stay pairwise distinct and never belong to empty files). Tied to the code by histories whose per-file read(2) byte counts (LD_PRELOAD trace) are compared with the model\'s read count 0/1/2, plus independent oracles (no duplicate unique content per group, unchanged files not read, archive data bytes = sum of unique sizes).',
+        'note': TRUST + 'sources static during a run; read(2) counts observed through the interposer.',
+    },
+    'C10': {
+        'text': 'Lean theorems: decode_encode (every record with any hash bytes, u64 device/inode/size, i128 mtime and any path incl. spaces is parsed back exactly from its manifest line; decimal and hex printing/parsing modelled at character level), fingerprint_roundtrip, record_truthful (path/fingerprint/size/hash of a record equal the source file\'s, hash inherited only on the short-cut), records_paths (one record per file in walk order). Tied to the code by decoding every produced backup with libzstd(ctypes)+tarfile+hashlib only (lines <-> regular entries one-to-one in order, unique prefix hash, extern empty, absolute resolved paths, 0600/0700 modes, truthfulness against the source tree) and by pushing generated and adversarial lines through the real MetadataWriter/zstd/MetadataReader against the model.',
+        'note': TRUST + 'tar/zstd byte formats are the crates\' (decoded independently, not modelled); Rust integer Display/FromStr as modelled (exercised incl. +sign, leading zeros, range limits).',
+    },
 }
